@@ -2,6 +2,7 @@ package props
 
 import (
 	"bytes"
+	"crypto/ed25519"
 	"errors"
 	"fmt"
 	"io"
@@ -126,7 +127,7 @@ func genRecipients(t *rapid.T, max int, allowScrypt, allowStub bool) []hx.RecSpe
 }
 
 func genPass(t *rapid.T) string {
-	return rapid.SampledFrom([]string{"hunter2", "Hunter2", "correct horse", "pässwörd", "p", "a b", "日本語パスワード", "x y z 1 2 3 4 5 6 7 8 9 0 a b c d e f g h"}).Draw(t, "pass")
+	return rapid.SampledFrom([]string{"hunter2", "Hunter2", "correct horse", "p\u00e4ssw\u00f6rd", "p", "a b", "日本語パスワード", "x y z 1 2 3 4 5 6 7 8 9 0 a b c d e f g h"}).Draw(t, "pass")
 }
 
 // genSegs draws a write segmentation: piece lengths including 0, pieces larger
@@ -361,4 +362,57 @@ func usesEd(recs []hx.RecSpec, idx int) bool {
 		}
 	}
 	return false
+}
+
+// refStanza wraps fileKey for a recipient spec with the reference
+// implementation; all randomness comes from seed.
+func refStanza(p *hx.Pool, r hx.RecSpec, fileKey []byte, seed uint64) []refage.Stanza {
+	switch r.Kind {
+	case "x25519":
+		st, err := refage.WrapX25519(fileKey, hx.PRG(seed, 32), refage.X25519Public(p.X25519[r.Idx]))
+		if err != nil {
+			panic(err)
+		}
+		return []refage.Stanza{st}
+	case "ed25519":
+		st, err := refage.WrapSSHEd25519(fileKey, hx.PRG(seed, 32), p.Ed[r.Idx].Public().(ed25519.PublicKey))
+		if err != nil {
+			panic(err)
+		}
+		return []refage.Stanza{st}
+	case "rsa":
+		st, err := refage.WrapSSHRSA(fileKey, bytes.NewReader(hx.PRG(seed, 4096)), &p.RSA[r.Idx].PublicKey)
+		if err != nil {
+			panic(err)
+		}
+		return []refage.Stanza{st}
+	case "scrypt":
+		wf := r.WF
+		if wf == 0 {
+			wf = 2
+		}
+		return []refage.Stanza{refage.WrapScrypt(fileKey, hx.PRG(seed, 16), wf, []byte(r.Pass))}
+	case "stub":
+		return append([]refage.Stanza{}, r.Stub.Stanzas...)
+	}
+	panic("refStanza: " + r.Kind)
+}
+
+// refFile builds a whole file with the reference implementation.
+func refFile(p *hx.Pool, recs []hx.RecSpec, fileKey []byte, seed uint64, plain []byte) *refage.File {
+	var sts []refage.Stanza
+	for i, r := range recs {
+		sts = append(sts, refStanza(p, r, fileKey, seed*131+uint64(i)+1)...)
+	}
+	return refage.Build(fileKey, hx.PRG(seed*131+99, 16), sts, refage.CanonicalChunks(plain))
+}
+
+// decryptReader opens a file and returns the plaintext reader (or the error).
+func decryptReader(file []byte, armored bool, ids ...age.Identity) (io.Reader, io.Reader, error) {
+	var src io.Reader = bytes.NewReader(file)
+	if armored {
+		src = armor.NewReader(src)
+	}
+	r, err := age.Decrypt(src, ids...)
+	return r, src, err
 }
